@@ -706,6 +706,12 @@ func runC05(ctx *Ctx) *Result {
 	}
 	defer os.RemoveAll(tmp)
 	run := &runner{dir: tmp}
+	// vhlib seeds its splitmix64 linearly (seed s+1 is seed s advanced by one step); mix the seed so
+	// that different VERIF_SEEDs give unrelated streams.  Still a pure function of the seed.
+	mix := ctx.Seed ^ ctx.Rng.Next()
+	mix = (mix ^ (mix >> 33)) * 0xff51afd7ed558ccd
+	mix = (mix ^ (mix >> 33)) * 0xc4ceb9fe1a85ec53
+	base := NewRNG(mix ^ (mix >> 33))
 	drv := ctx.StartNadrv("c05")
 	defer drv.Close()
 
@@ -840,9 +846,9 @@ func runC05(ctx *Ctx) *Result {
 	}
 
 	// ---- seeded random
-	n := ctx.N(500, 30000)
+	n := ctx.N(1500, 30000)
 	for i := 0; i < n; i++ {
-		rng := ctx.Rng.Fork()
+		rng := base.Fork()
 		c := &c05Case{Abstract: true, Names: rng.Bool()}
 		switch k := rng.Intn(100); {
 		case k < 30:
@@ -864,8 +870,8 @@ func runC05(ctx *Ctx) *Result {
 		runCase(c)
 	}
 	// excluded points, at a low rate (each is a listed class)
-	for i := 0; i < ctx.N(40, 1500); i++ {
-		rng := ctx.Rng.Fork()
+	for i := 0; i < ctx.N(60, 1500); i++ {
+		rng := base.Fork()
 		c := &c05Case{Abstract: true, Names: rng.Bool(), Stream: "excluded"}
 		switch rng.Intn(4) {
 		case 0:
@@ -884,13 +890,13 @@ func runC05(ctx *Ctx) *Result {
 		runCase(c)
 	}
 	// text soup: malformed and odd input, tie only
-	for i := 0; i < ctx.N(400, 20000); i++ {
-		rng := ctx.Rng.Fork()
+	for i := 0; i < ctx.N(1000, 20000); i++ {
+		rng := base.Fork()
 		runCase(&c05Case{Stream: "soup", Dev: genSoup(rng), Spoc: genSoup(rng)})
 	}
 	// more than 12 target routes (unstable sort): tie up to the order inside one prefix length
 	for i := 0; i < ctx.N(20, 500); i++ {
-		rng := ctx.Rng.Fork()
+		rng := base.Fork()
 		c := &c05Case{Stream: "many-routes"}
 		var dl, tl []string
 		seen := map[string]bool{}
@@ -1005,8 +1011,8 @@ func runC05(ctx *Ctx) *Result {
 		res.Notes = append(res.Notes, "exhaustive: 16 device route sets x 41 target sequences over 4 keys; every hint combination of single-rule spellings per option kind, both protocol printing styles")
 	}
 	// normalizeIPTables and parseIPTables through the exports
-	for i := 0; i < ctx.N(600, 30000); i++ {
-		rng := ctx.Rng.Fork()
+	for i := 0; i < ctx.N(1500, 30000); i++ {
+		rng := base.Fork()
 		m := genPairs(rng)
 		got := encPairs(linux.VerifNormalizeIPTables(m))
 		want := drv.Ask("norm" + fs + encPairs(m))
@@ -1017,8 +1023,8 @@ func runC05(ctx *Ctx) *Result {
 			res.Disagree("c05 normalizeIPTables vs model", m, got, want)
 		}
 	}
-	for i := 0; i < ctx.N(300, 10000); i++ {
-		rng := ctx.Rng.Fork()
+	for i := 0; i < ctx.N(600, 10000); i++ {
+		rng := base.Fork()
 		lines := []string{"*filter", ":INPUT DROP", ":c1 -"}
 		k := 1 + rng.Intn(3)
 		for j := 0; j < k; j++ {
